@@ -138,7 +138,10 @@ RetStep(s, e) ==
     LET s1 == [s EXCEPT !.lastok = Put(@, e.p, e.ok), !.lastret = Put(@, e.p, e), !.absmap = AbsAfter(s, e)] IN
     IF e.p \in DOMAIN s.cur /\ Has(s.cur[e.p], "val") /\ Has(s.cur[e.p], "key") THEN
         LET k == s.cur[e.p].key v == s.cur[e.p].val
-            isset == e.api \in {"set", "set_tf"} \/ (e.api = "gou" /\ Has(s.cur[e.p], "judge") /\ s.cur[e.p].judge = "replace")
+            \* (a get_or_update(Replace) that was hit by a fault may have taken the miss path -- a stale handle means "gone" --
+            \* and then behaves like ensure: its value is stored only if the key was free)
+            isset == e.api \in {"set", "set_tf"} \/ (e.api = "gou" /\ Has(s.cur[e.p], "judge") /\ s.cur[e.p].judge = "replace"
+                                                       /\ ~(e.p \in DOMAIN s.faulted /\ s.faulted[e.p] = e.opi))
         IN
         IF isset /\ e.ok THEN [s1 EXCEPT !.lastset = Put(@, k, v), !.maybeset = Put(@, k, {})]
         \* a failed set, or an insert-if-absent (put / ensure / promote), may or may not have stored its value
